@@ -1,6 +1,8 @@
 SPECIFICATION Spec
 CONSTANTS PairSrc = "all" CtxU = "tiny" MaxFlow = 3 KeyU = "six"
 INVARIANT IsPartition
+INVARIANT SnapshotsRight
+PROPERTY ResetEmpties
 INVARIANT PartitionExact
 INVARIANT OrderPreserved
 INVARIANT NoEmptyGroup
